@@ -1,14 +1,14 @@
 SPECIFICATION Spec
 CONSTANTS
-  Vers = {"sasl", "sasl2"}
-  Mechs = {"PLAIN", "DIGEST-MD5", "X-UNKNOWN"}
+  Vers = {"sasl"}
+  Mechs = {"PLAIN", "DIGEST-MD5"}
   Creds = {"right", "otherUser"}
   BindRes = {"ra"}
   Kinds = {"message", "presence", "iq"}
   Froms = {"absent", "own", "ownBare", "victim", "other"}
   Tos = {"victimBare", "victimFull", "domain", "absent"}
   Stanzas <- CoreStanzas
-  MaxPending = 1
+  MaxPending = 2
   MaxHist = 99
 VIEW GenView
 ACTION_CONSTRAINT EmitNoReauth
